@@ -13,7 +13,7 @@ grep -rn "sync\.Map\|\.Range(func" internal cmd --include=*.go | head
 fail=0
 for id in $IDS; do
   BIN=./bin/verifctl
-  if [ "$id" = "C17" ] || [ "$id" = "C01c" ] || [ "$id" = "C02c" ]; then
+  if [ "$id" = "C17" ] || [ "$id" = "C01c" ] || [ "$id" = "C02c" ] || [ "$id" = "C06c" ]; then
     WORK="$HOME/.cache/verif-work/det-$$"; mkdir -p "$WORK"
     CIRCL=$(go list -m -f '{{.Dir}}' github.com/cloudflare/circl)
     ./bin/yieldinstr -repo /repo -circl "$CIRCL" -out "$WORK" >/dev/null && sed -e "s#=> /repo#=> $WORK/patgo#" go.mod > "$WORK/go.mod" && echo "replace github.com/cloudflare/circl => $WORK/circl" >> "$WORK/go.mod" && cp go.sum "$WORK/go.sum" && \
@@ -28,6 +28,6 @@ for id in $IDS; do
     if [ -z "$ref" ]; then ref="$h"; first="$out"; elif [ "$h" != "$ref" ]; then ok=0; echo "$id: DIVERGENCE at GOMAXPROCS=$g rep=$r"; diff <(echo "$first") <(echo "$out") | head -5; fi
   done; done
   [ $ok -eq 1 ] && echo "$id: $N plans x 3 GOMAXPROCS x $REPS reps identical ($ref)" || fail=1
-  case "$id" in C17|C01c|C02c) rm -rf "$WORK";; esac
+  case "$id" in C17|C01c|C02c|C06c) rm -rf "$WORK";; esac
 done
 exit $fail
